@@ -5,14 +5,19 @@
    and threshold = 1, what a plain single-server ciw.Node did on the same input.  The
    acceptor runs the model and compares exactly (Qeq_bool, no rounding anywhere).
 
-   wire format   L [K; A rn; A rd; arrs; recs; snaps; fifo]
-     K      A k | L [A 0] (infinite)
-     arrs   L [A id; A tn; A td; A wn; A wd] ...            (in arrival order)
-     recs   L [A id; arr; start; exit] ...                   (dates as L [A n; A d]; any order)
-     snaps  L [now; A last_occupancy; L [L [A id; A ws; start; time_left; end; last_update] ...]] ...
-     fifo   L [] | L [recs of the FIFO twin]                                                     *)
+   The same acceptor also serves PS nodes inside observed networks (arrivals = the node's
+   accept log, one id per visit; horizon = the simulated time, customers still present then
+   have no record).
+
+   wire format   L [K; A rn; A rd; arrs; recs; snaps; fifo; horizon]
+     K        A k | L [A 0] (infinite)
+     arrs     L [A id; A tn; A td; A wn; A wd] ...            (in arrival order)
+     recs     L [A id; arr; start; exit] ...                   (dates as L [A n; A d]; any order)
+     snaps    L [] | L [L [now; A last_occupancy; L [L [A id; A ws; start; time_left; end; last_update] ...]] ...]
+     fifo     L [] | L [recs of the FIFO twin]
+     horizon  L [] (run to completion: one record per arrival) | L [h] (every model departure before h has a record) *)
 From Coq Require Import QArith Qminmax Qreduction ZArith List Bool Lia.
-From CiwV Require Import Sx PS.
+From CiwV Require Import Sx Prelude PS.
 Import ListNotations.
 Open Scope Q_scope.
 
@@ -123,8 +128,16 @@ Definition sorted_arrs (l : list arrival) : bool :=
   (fix go (t : Q) (l : list arrival) : bool :=
      match l with [] => true | a :: r => Qle_bool t (a_t a) && Qle_bool 0 (a_w a) && go (a_t a) r end) 0 l.
 
-Definition acc (K : option nat) (R : Q) (arrs : list arrival) (recs : list rec) (snaps : list snap)
-               (fifo : option (list rec)) : verdict :=
+Definition has_rec (recs : list rec) (d : dep) : bool := existsb (fun r => (r_id r =? d_id d)%Z) recs.
+
+Definition count_clause (hz : option Q) (arrs : list arrival) (recs : list rec) (ds : list dep) : bool :=
+  match hz with
+  | None => (length recs =? length arrs)%nat
+  | Some h => forallb (fun d => Qle_bool h (d_exit d) || has_rec recs d) ds
+  end.
+
+Definition acc (K : option nat) (R : Q) (arrs : list arrival) (recs : list rec) (snaps : option (list snap))
+               (fifo : option (list rec)) (hz : option Q) : verdict :=
   if Qle_bool R 0 || negb (sorted_arrs arrs) then BadInput 2
   else
     let fuel := (2 * length arrs)%nat in
@@ -133,11 +146,11 @@ Definition acc (K : option nat) (R : Q) (arrs : list arrival) (recs : list rec) 
     let ds := deps fin in
     match inds fin, pend fin with
     | [], [] =>
-      if negb (length recs =? length arrs)%nat then Reject 0 190 [Z.of_nat (length recs); Z.of_nat (length arrs)]
+      if negb (count_clause hz arrs recs ds) then Reject 0 190 [Z.of_nat (length recs); Z.of_nat (length arrs)]
       else match scan_recs ds recs with
       | Some (i, c) => Reject i c []
       | None =>
-        match scan_snaps 0 (settled tr) snaps with
+        match (match snaps with Some sn => scan_snaps 0 (settled tr) sn | None => None end) with
         | Some (k, c) => Reject k c []
         | None =>
           match fifo with
@@ -157,21 +170,30 @@ Definition acc (K : option nat) (R : Q) (arrs : list arrival) (recs : list rec) 
     | _, _ => Reject 0 196 []                                                    (* model run incomplete *)
     end.
 
+Definition opt_list {X} (f : sx -> option X) (s : sx) : option (option (list X)) :=
+  match s with
+  | L [] => Some None
+  | L [x] => match (do l <- getL x; omap f l) with Some v => Some (Some v) | None => None end
+  | _ => None
+  end.
+Definition opt_Q (s : sx) : option (option Q) :=
+  match s with
+  | L [] => Some None
+  | L [x] => match getQ x with Some v => Some (Some v) | None => None end
+  | _ => None
+  end.
+
 Definition run (s : sx) : verdict :=
   match s with
-  | L [k; A rn; A rd; a; r; sn; f] =>
+  | L [k; A rn; A rd; a; r; sn; f; hz] =>
     match decode_K k, getQ (L [A rn; A rd]), (do l <- getL a; omap decode_arrival l),
-          (do l <- getL r; omap decode_rec l), (do l <- getL sn; omap decode_snap l) with
-    | Some K, Some R, Some arrs, Some recs, Some snaps =>
-      match f with
-      | L [] => acc K R arrs recs snaps None
-      | L [fr] => match (do l <- getL fr; omap decode_rec l) with
-                  | Some frecs => acc K R arrs recs snaps (Some frecs)
-                  | None => BadInput 1
-                  end
-      | _ => BadInput 1
+          (do l <- getL r; omap decode_rec l) with
+    | Some K, Some R, Some arrs, Some recs =>
+      match opt_list decode_snap sn, opt_list decode_rec f, opt_Q hz with
+      | Some snaps, Some fifo, Some h => acc K R arrs recs snaps fifo h
+      | _, _, _ => BadInput 1
       end
-    | _, _, _, _, _ => BadInput 0
+    | _, _, _, _ => BadInput 0
     end
   | _ => BadInput 0
   end.
@@ -217,21 +239,35 @@ Proof.
   repeat split; apply Qeq_bool_iff; assumption.
 Qed.
 
-(* an accepted case: every record of the real PS node carries exactly the model's dates *)
-Theorem C19_accept_sound K R arrs recs snaps fifo stt :
-  acc K R arrs recs snaps fifo = Accept stt ->
-  let fin := last (trace R K (2 * length arrs) (init arrs)) (init arrs) in
-  inds fin = [] /\ pend fin = [] /\ length recs = length arrs /\
+Lemma trace_last R K f : forall s d, last (trace R K f s) d = PS.run R K f s.
+Proof.
+  induction f as [|f IH]; intros s d; [reflexivity|].
+  cbn [trace PS.run]. destruct (step R K s) as [s'|]; [|reflexivity].
+  rewrite last_cons. apply IH.
+Qed.
+
+(* an accepted case: every record of the real PS node carries exactly the dates of the model's run
+   (PS.ps_run, the function the theorems of Sub/PS.v are about) *)
+Theorem C19_accept_sound K R arrs recs snaps fifo hz stt :
+  acc K R arrs recs snaps fifo hz = Accept stt ->
+  let fin := PS.ps_run R K arrs in
+  inds fin = [] /\ pend fin = [] /\
+  (hz = None -> length recs = length arrs) /\
+  (forall h d, hz = Some h -> In d (deps fin) -> d_exit d < h -> exists r, In r recs /\ r_id r = d_id d) /\
   forall r, In r recs -> exists d, find_dep (r_id r) (deps fin) = Some d /\
     r_arr r == d_arr d /\ r_start r == d_start d /\ r_exit r == d_exit d.
 Proof.
   intros H fin. unfold acc in H.
   destruct (Qle_bool R 0 || negb (sorted_arrs arrs)); [discriminate|].
-  cbv zeta in H. fold fin in H.
+  cbv zeta in H. rewrite trace_last in H. fold (PS.ps_run R K arrs) in H. fold fin in H.
   destruct (inds fin) eqn:Ei; [|discriminate]. destruct (pend fin) eqn:Ep; [|discriminate].
-  destruct (length recs =? length arrs)%nat eqn:El; cbn [negb] in H; [|discriminate].
+  destruct (count_clause hz arrs recs (deps fin)) eqn:El; cbn [negb] in H; [|discriminate].
   destruct (scan_recs (deps fin) recs) as [[i c]|] eqn:Es; [discriminate|].
-  repeat split; try reflexivity.
-  - apply Nat.eqb_eq; assumption.
+  split; [reflexivity|]. split; [reflexivity|]. split; [|split].
+  - intros ->. cbn in El. apply Nat.eqb_eq; assumption.
+  - intros h d -> Hd Hlt. cbn in El. rewrite forallb_forall in El. specialize (El d Hd).
+    apply orb_true_iff in El as [El|El].
+    + apply Qle_bool_iff in El. exfalso. apply (Qlt_not_le _ _ Hlt El).
+    + unfold has_rec in El. apply existsb_exists in El as (r & Hr & E). exists r. split; [exact Hr|]. apply Z.eqb_eq. exact E.
   - apply scan_recs_None; assumption.
 Qed.
